@@ -23,6 +23,12 @@ use crate::caps::{MemCaps, TrCaps};
 use crate::guardmem::GuardMem;
 use crate::rig::RawSlot;
 
+/// The run is restricted to pointer-free elements (Miri forced onto the production byte loop: a pointer copied byte by byte
+/// loses its provenance there, so element types that own heap memory are left out - DESIGN.md 7.4).
+pub fn pointer_free_only() -> bool {
+    std::env::args().any(|a| a == "--pointer-free")
+}
+
 /// Book-keeping shared by the special workloads.
 pub struct Sp<'a> {
     pub ctx: &'a mut Ctx,
@@ -686,6 +692,9 @@ pub fn c04(_ctx: &mut Ctx) {}
 
 #[cfg(feature = "alloc")]
 fn c08_clone_from_pair<A: Elem, B: Elem>(ctx: &mut Ctx, max_len: usize) {
+    if pointer_free_only() && (A::HEAP || B::HEAP) {
+        return;
+    }
     let name = format!("{}<-{}", A::NAME, B::NAME);
     let mut sp = Sp::new(ctx, "clone-from", name.clone());
     sp.ctx.ordinal = 0;
@@ -2035,6 +2044,9 @@ pub fn c05_live_growth(ctx: &mut Ctx) {
     where
         M::Mem: any_vec::mem::MemResizable,
     {
+        if pointer_free_only() && T::HEAP {
+            return;
+        }
         for what in 0..4u8 {
             if !sp.take() {
                 continue;
@@ -2393,6 +2405,9 @@ pub fn prealloc_backend(ctx: &mut Ctx) {
     sp.ctx.ordinal = 0;
     type Tr = dyn Cloneable;
     fn run<T: Elem>(sp: &mut Sp) {
+        if pointer_free_only() && T::HEAP {
+            return;
+        }
         for n in [0usize, 1, 2, 3, 5, 9] {
             for growth in [hvcore::guard::Growth::Exact, hvcore::guard::Growth::Double] {
                 if !sp.take() {
